@@ -220,10 +220,42 @@ def required_batches(prop, tier, seed, work, res, quick):
                 cid = "C09-nocopy-%d%d-%s-%d" % (a, b, o, n)
                 cases.append({"cid": cid, "w": "WNc", "val": {"f": f, "unk": []}, "ord": o, "trail": [], "mut": "none"})
                 plans[cid] = ("TNcR", "required-nocopy")
-    msgs, st = vlib.gen_messages(work, defs_path, cases)
+    # required fields of types with declared defaults
+    for a in (0, 1):
+        for b in (0, 1):
+            ri = {"f": {"1": {"p": 1, "v": [0, 0, 0, 7]} if a else {"p": 0}, "2": {"p": 1, "v": list(b"r")} if b else {"p": 0}, "3": {"p": 0}}, "unk": []}
+            n += 1
+            cid = "C09-init-%d%d-%d" % (a, b, n)
+            cases.append({"cid": cid, "w": "WRi", "val": ri, "ord": ORDS[n % 4], "trail": [], "mut": "none"})
+            plans[cid] = ("TRi", "required-init")
+            n += 1
+            cid = "C09-initn-%d%d-%d" % (a, b, n)
+            cases.append({"cid": cid, "w": "WRiN", "val": {"f": {"1": {"nil": False, "items": [{"p": 1, "v": ri}]}, "2": {"p": 1, "v": ri}}, "unk": []},
+                          "ord": ORDS[n % 4], "trail": [], "mut": "none"})
+            plans[cid] = ("TRiN", "required-init-nested")
+    # one field written twice and another one left out: a duplicate never stands in for a missing field
+    dupcases = []
+    full = {"f": {str(i): {"p": 1, "v": U.be(i + 7, 4)} for i in ids}, "unk": []}
+    dupcases.append({"cid": "C09-dup-all", "w": "WIds", "val": full, "ord": "asc", "trail": [], "mut": "dupdrop"})
+    few = [ids[0], ids[3], ids[5]] if len(ids) > 5 else ids
+    dupcases.append({"cid": "C09-dup-ri", "w": "WRi", "val": {"f": {"1": {"p": 1, "v": [0, 0, 0, 7]}, "2": {"p": 1, "v": list(b"r")}, "3": {"p": 1, "v": [0] * 8}}, "unk": []},
+                     "ord": "asc", "trail": [], "mut": "dupdrop"})
+    leafv = {"f": {"1": {"p": 1, "v": [0, 0, 0, 5]}, "64": {"p": 1, "v": list(b"x")}}, "unk": []}
+    dupcases.append({"cid": "C09-dup-leaf", "w": "WLeaf", "val": leafv, "ord": "asc", "trail": [], "mut": "dupdrop"})
+    msgs, st = vlib.gen_messages(work, defs_path, cases + dupcases)
     res.tlc_states += st.get("distinct", 0)
     res.tlc_transitions += st.get("generated", 0)
     scen = []
+    dupreaders = {"C09-dup-all": ["TReqAll", "TReq64", "TReq%d" % ids[-1]], "C09-dup-ri": ["TRi"], "C09-dup-leaf": ["TLeafR"]}
+    for dc in dupcases:
+        for t in dupreaders[dc["cid"]]:
+            ms = msgs[dc["cid"]]
+            if quick and len(ms) > 120:
+                import random as _r
+                ms = _r.Random(7).sample(ms, 120)
+            steps = [{"op": "decode", "ty": t, "in": m, "dest": "fresh"} for m in ms]
+            sid = "%s-%s" % (dc["cid"], t)
+            scen.append({"sid": sid, "prop": prop, "vals": [], "steps": steps, "tags": ["dupdrop"], "dkey": sid})
     allmsg = {}
     for cid, (t, label) in plans.items():
         allmsg.setdefault(t, []).append(msgs[cid][0])
